@@ -15,7 +15,7 @@ RULE = ("call sequences over {open_rx_pipe(0|1|2,a), close_rx_pipe(0|1), open_tx
         "last call is followed by real probe transmissions (a third radio sending to the "
         "user's address and to the TX address; send() to a listening peer). Non-trivial: at "
         "least one role change was observed; distinct = distinct call histories.")
-RULE += (" Later rounds added: neutral calls mixed into the random walks (get_auto_ack, power, an open_rx_pipe(0, empty) the driver refuses, CE driven by the application in TX role), auto-ack for pipe 0 switched on implicitly by ack = True, directed templates beyond the search depth (two TX addresses with auto-ack changes between them; a neutral call before each of two RX entries).")
+RULE += (" Later rounds added: neutral calls mixed into the random walks (get_auto_ack, power, an open_rx_pipe(0, empty) the driver refuses, CE driven by the application in TX role), auto-ack for pipe 0 switched on implicitly by ack = True, directed templates beyond the search depth (two TX addresses with auto-ack changes between them; a neutral call before each of two RX entries; auto-ack for pipe 0 off around an RX phase and on again in TX role before a TX address is set).")
 REQUIRED = {"rx_entry_pipe0": 300, "probe_user_addr": 100, "probe_tx_addr": 50,
             "tx_pipe0_ack_addr": 200, "send_probe": 100, "ce_at_return": 2000,
             "prim_rx_flip_ce": 500}
@@ -333,6 +333,25 @@ def run_shard(ctx, kind="full", prefix=""):
                     pre = ([["open_rx_pipe", 0, x]] if x else []) + [["listen", False], ["open_tx_pipe", y]] + ([aa1] if aa1 else [])
                     tpl.append(pre + [nop, ["listen", True], ["listen", False], nop, ["listen", True], ["listen", False],
                                       ["open_tx_pipe", y]])
+    # ... and auto-ack for pipe 0 switched off around an RX phase (before the RX entry or while
+    # listening), switched on again in TX role, then a TX address: pipe 0 has to be open for the
+    # acknowledgement whatever the driver remembered about it while it listened
+    if kind == "full":
+        for x in (None, A, D):
+            for opener in (["listen", False], ["open_tx_pipe", C], ["open_tx_pipe", A]):
+                for aoff in (["set_auto_ack", 0, 0], ["auto_ack", 0x3E], ["auto_ack", 0]):
+                    for where in ("tx", "rx", "rx-late"):
+                        for aon in (["set_auto_ack", 1, 0], ["auto_ack", 0x3F], ["ack", True]):
+                            for z in (C, A):
+                                path = ([["open_rx_pipe", 0, x]] if x else []) + [opener]
+                                if where == "tx":
+                                    path += [aoff, ["listen", True]]
+                                elif where == "rx":
+                                    path += [["listen", True], aoff]
+                                else:  # a second RX phase: the first one is left with auto-ack still on
+                                    path += [["listen", True], ["listen", False], ["listen", True], aoff]
+                                path += [["listen", False], aon, ["open_tx_pipe", z]]
+                                tpl.append(path)
     for ti, path in enumerate(tpl):
         if ti % ctx.nshards != ctx.shard:
             continue
